@@ -12,13 +12,16 @@ import (
 
 const vpHmacKeyB64 = "iN3FKLQR7VCX0eQ45nBYMiPRxN3hiqfmexEfNFbM+L4="
 
+// vpArgonLen is the digest length of parameter set 1 (units may shorten it).
+var vpArgonLen = 32
+
 // vpConfigDoc: parameter set 1 = argon2id, 2 = hmac_sha256_scrypt (cheap parameters).
 func vpConfigDoc(base string, def int) map[string]interface{} {
 	return map[string]interface{}{
 		"basedir": base,
 		"default": def,
 		"params": []interface{}{
-			map[string]interface{}{"id": 1, "argon2id": map[string]interface{}{"time": 1, "memory": 8, "threads": 1, "length": 32}},
+			map[string]interface{}{"id": 1, "argon2id": map[string]interface{}{"time": 1, "memory": 8, "threads": 1, "length": vpArgonLen}},
 			map[string]interface{}{"id": 2, "scryptauth": map[string]interface{}{"hmackey": vpHmacKeyB64, "cost": 2}},
 		},
 	}
